@@ -198,6 +198,30 @@ Definition case_yield (which interval : N) (xs : list Z) : list Z :=
   | _ => let '(r, _, tr) := yi_collect INIT_BUDGET interval xs in obs_optl r ++ [(-7)%Z] ++ obs_tr tr
   end.
 
+(* kind 23: histories on one FiberYield (a = 0, b = initial_budget: 1 yield_now, 2 force_yield, 3 reset; after every operation
+   the number of suspensions it took, budget(), total_yields()) or one YieldPoint (a = 1, b = yield_interval: 1 checkpoint,
+   2 yield_now, 3 reset; after every operation its suspensions and operation_count()) *)
+Definition fy_reset (init : N) (y : fy) : fy := mkFY init 0.
+Fixpoint fy_hist (init : N) (y : fy) (ops : list Z) : list Z :=
+  match ops with
+  | [] => []
+  | o :: r =>
+      let '(y', susp) := if (o =? 1)%Z then (fy_yield init y, 1%Z) else if (o =? 2)%Z then (fy_force init y, 1%Z)
+                         else (fy_reset init y, 0%Z) in
+      susp :: Z.of_N (fy_budget y') :: Z.of_N (fy_total y') :: fy_hist init y' r
+  end.
+Fixpoint yp_hist (k : N) (p : yp) (ops : list Z) : list Z :=
+  match ops with
+  | [] => []
+  | o :: r =>
+      let '(p', susp) := if (o =? 1)%Z then (let '(q, yl) := tick_checkpoint INIT_BUDGET k p in (q, if yl then 1%Z else 0%Z))
+                         else if (o =? 2)%Z then (mkYP (yp_count p) (fy_force INIT_BUDGET (yp_fy p)), 1%Z)
+                         else (mkYP 0 (fy_reset INIT_BUDGET (yp_fy p)), 0%Z) in
+      susp :: Z.of_N (yp_count p') :: yp_hist k p' r
+  end.
+Definition case_fy (obj b : N) (ops : list Z) : list Z :=
+  if obj =? 0 then fy_hist b (mkFY b 0) ops else yp_hist (ival b) (yp_new INIT_BUDGET) ops.
+
 (* kind 20: buffered(max(1, a)) over b gated operations; ops = the item of every operation, then the gates in the order
    in which the harness opens them.  Observed: the number of operations started after the first poll and after every
    gate, -7, the result. *)
